@@ -103,7 +103,7 @@ class Concretiser:
         if no_multiline:
             sp = [x for x in sp if "m" not in x[1]]
         if avoid_quote:
-            sp = [x for x in sp if avoid_quote not in x[0]]
+            sp = [x for x in sp if not any(c in x[0] for c in avoid_quote)]
         self.strs = perm(sp)
         self.ints = perm(INT_POOL)
         self.floats = perm(FLOAT_POOL)
